@@ -1,6 +1,7 @@
 import LiteFSVerif.Driver.Util
 import LiteFSVerif.Driver.RWMutexSpecD
 import LiteFSVerif.Driver.CodecSpecD
+import LiteFSVerif.Driver.EngineSpecD
 
 /-! `specd`: runs only the independent specifications (never imports Gen/ or Model/),
     so it still builds when the regenerated definitions no longer do. -/
@@ -11,6 +12,7 @@ def main (args : List String) : IO UInt32 := do
   let stdout ← IO.getStdout
   match args with
   | ["rwmutex-spec"] => loop stdin stdout RWMutexSpecD.stepSpec []; return 0
+  | ["engine-spec"] => loop stdin stdout EngineSpec.step {}; return 0
   | ["codec-spec"] => loop stdin stdout CodecSpec.step (); return 0
   | _ =>
     IO.eprintln "usage: specd <suite>"
